@@ -390,23 +390,26 @@ impl Replayer {
                 let party = self.w.parties.get_mut(&p).unwrap();
                 let g = party.group.as_mut().unwrap();
                 let before_refs: Vec<Vec<u8>> = g.get_cached_proposals().iter().map(|c| c.proposal_ref().as_slice().to_vec()).collect();
+                // C03: every proposal carries its own authenticated data; receivers must report exactly it
+                let pad = format!("ad-p{}", u(&args, "prop")).into_bytes();
+                let my_leaf = g.current_member_index();
                 let r = match kind.as_str() {
-                    "add" => g.propose_add(kp.unwrap(), vec![]),
-                    "rem" => g.propose_remove(u(&args, "target") as u32, vec![]),
+                    "add" => g.propose_add(kp.unwrap(), pad.clone()),
+                    "rem" => g.propose_remove(u(&args, "target") as u32, pad.clone()),
                     // every third update also changes the member's signing key (same identity): the receivers'
                     // identity provider accepts it as a valid successor, and the proposer switches signer only when
                     // a commit carrying the update is accepted (F4)
                     "upd" if u(&args, "prop") % 3 == 0 => {
                         let (sk, pk) = probe_new_sig.clone().expect("new signature key");
                         let id = mls_rs::identity::SigningIdentity::new(mls_rs::identity::basic::BasicCredential::new(p.as_bytes().to_vec()).into_credential(), pk);
-                        g.propose_update_with_identity(sk, id, vec![])
+                        g.propose_update_with_identity(sk, id, pad.clone())
                     }
-                    "upd" => g.propose_update(vec![]),
-                    "psk" => g.propose_external_psk(mls_rs::psk::ExternalPskId::new(s(&args, "id").as_bytes().to_vec()), vec![]),
-                    "rpsk" => g.propose_resumption_psk(u(&args, "pe"), vec![]),
-                    "gce" => g.propose_group_context_extensions(gce_list(u(&args, "ver")), vec![]),
-                    "custom" => g.propose_custom(custom_proposal(u(&args, "ver")), vec![]),
-                    "reinit" => g.propose_reinit(Some(b"verif-group-next".to_vec()), mls_rs::ProtocolVersion::MLS_10, suite, Default::default(), vec![]),
+                    "upd" => g.propose_update(pad.clone()),
+                    "psk" => g.propose_external_psk(mls_rs::psk::ExternalPskId::new(s(&args, "id").as_bytes().to_vec()), pad.clone()),
+                    "rpsk" => g.propose_resumption_psk(u(&args, "pe"), pad.clone()),
+                    "gce" => g.propose_group_context_extensions(gce_list(u(&args, "ver")), pad.clone()),
+                    "custom" => g.propose_custom(custom_proposal(u(&args, "ver")), pad.clone()),
+                    "reinit" => g.propose_reinit(Some(b"verif-group-next".to_vec()), mls_rs::ProtocolVersion::MLS_10, suite, Default::default(), pad.clone()),
                     k => panic!("unknown proposal kind {k}"),
                 };
                 match r {
@@ -419,16 +422,37 @@ impl Replayer {
                             .unwrap_or_default();
                         self.w.props.push(m);
                         self.w.prop_refs.push(new_ref);
+                        self.w.prop_meta.push((kind.clone(), format!("member:{my_leaf}"), pad));
                         "ok".into()
                     }
                     Err(e) => classify(&e),
                 }
             }
             "DeliverProposal" => {
-                let m = self.w.props[u(&args, "prop") as usize - 1].clone();
+                let j = u(&args, "prop") as usize;
+                let m = self.w.props[j - 1].clone();
+                let meta = self.w.prop_meta.get(j - 1).cloned();
                 let g = self.w.parties.get_mut(&p).unwrap().group.as_mut().unwrap();
                 match g.process_incoming_message(m) {
-                    Ok(ReceivedMessage::Proposal(_)) => "ok".into(),
+                    Ok(ReceivedMessage::Proposal(d)) => {
+                        // C03: an accepted proposal is reported with its true sender, content kind and authenticated data
+                        if let Some((kind, sender, ad)) = meta {
+                            let got_sender = match d.sender {
+                                mls_rs::group::ProposalSender::Member(l) => format!("member:{l}"),
+                                mls_rs::group::ProposalSender::External(i) => format!("external:{i}"),
+                                mls_rs::group::ProposalSender::NewMember => "newmember".to_string(),
+                                _ => "other".to_string(),
+                            };
+                            use mls_rs::group::proposal::Proposal as P;
+                            let got_kind = match &d.proposal { P::Add(_) => "add", P::Update(_) => "upd", P::Remove(_) => "rem", P::Psk(x) => if x.external_psk_id().is_some() { "psk" } else { "rpsk" },
+                                P::ReInit(_) => "reinit", P::GroupContextExtensions(_) => "gce", P::Custom(_) => "custom", _ => "other" };
+                            if got_sender != sender || got_kind != kind || d.authenticated_data != ad {
+                                viol!(self, ["C03"], "proposal-misreported", "{p}: proposal {j} reported as {got_kind} from {got_sender} with authenticated data {:?}; it is {kind} from {sender} with {:?}", String::from_utf8_lossy(&d.authenticated_data), String::from_utf8_lossy(&ad));
+                            }
+                            self.w.bump("proposal_report_checks");
+                        }
+                        "ok".into()
+                    }
                     Ok(o) => format!("ok:unexpected:{o:?}"),
                     Err(e) => classify(&e),
                 }
@@ -557,8 +581,17 @@ impl Replayer {
                 let n = u(&args, "commit") as usize;
                 let m = self.w.commits[n - 1].msg.clone();
                 let own = self.w.commits[n - 1].by == p;
+                let (exp_leaf, exp_ad) = (self.w.commits[n - 1].by_leaf, self.w.commits[n - 1].ad.clone());
                 let g = self.w.parties.get_mut(&p).unwrap().group.as_mut().unwrap();
-                match g.process_incoming_message(m) {
+                let processed = g.process_incoming_message(m);
+                if let Ok(ReceivedMessage::Commit(d)) = &processed {
+                    // C03: an accepted commit is reported with its true committer and authenticated data
+                    if d.committer != exp_leaf || d.authenticated_data != exp_ad {
+                        viol!(self, ["C03"], "commit-misreported", "{p}: commit {n} reported from leaf {} with authenticated data {:?}; it is from leaf {exp_leaf} with {:?}", d.committer, String::from_utf8_lossy(&d.authenticated_data), String::from_utf8_lossy(&exp_ad));
+                    }
+                    self.w.bump("commit_report_checks");
+                }
+                match processed {
                     Ok(ReceivedMessage::Commit(d)) => match d.effect {
                         CommitEffect::NewEpoch(_) => {
                             epoch_changed = true;
@@ -662,10 +695,11 @@ impl Replayer {
                         }
                         self.w.bump("commit_recipient_checks");
                         let tree_bytes = g.export_tree().to_bytes().ok();
+                        let ext_leaf = g.current_member_index();
                         self.w.parties.get_mut(&p).unwrap().group = Some(g);
                         // a group joined through a Welcome and given up before it was ever written keeps its key package
                         self.w.joined_with.remove(&p);
-                        self.w.commits.push(CommitEntry { by: p.clone(), welcomes: vec![], msg, tree: tree_bytes, base_epoch, forged: vec![] });
+                        self.w.commits.push(CommitEntry { by: p.clone(), welcomes: vec![], msg, tree: tree_bytes, base_epoch, forged: vec![], by_leaf: ext_leaf, ad: vec![] });
                         epoch_changed = true;
                         "ok".into()
                     }
@@ -718,6 +752,7 @@ impl Replayer {
                         self.w.kps.push(KpEntry { owner: p.clone(), msg: kp_msg, store_id });
                         self.w.props.push(m);
                         self.w.prop_refs.push(pref);
+                        self.w.prop_meta.push(("add".to_string(), "newmember".to_string(), vec![]));
                         "ok".into()
                     }
                     Err(e) => classify(&e),
@@ -1057,12 +1092,15 @@ impl Replayer {
                 let o = self.observer.as_mut().expect("observer exists");
                 let g = o.group.as_mut().expect("observer group");
                 let before: Vec<Vec<u8>> = g.get_cached_proposals().iter().map(|c| c.proposal_ref().as_slice().to_vec()).collect();
-                let r = catch_unwind(AssertUnwindSafe(|| match kp { Some(k) => g.propose_add(k, vec![]), None => g.propose_remove(arg as u32, vec![]) }));
+                let pad = format!("ad-p{}", u(args, "prop")).into_bytes();
+                let pad2 = pad.clone();
+                let r = catch_unwind(AssertUnwindSafe(|| match kp { Some(k) => g.propose_add(k, pad2.clone()), None => g.propose_remove(arg as u32, pad2.clone()) }));
                 match r {
                     Ok(Ok(m)) => {
                         let new_ref = g.get_cached_proposals().iter().map(|c| c.proposal_ref().as_slice().to_vec()).find(|r| !before.contains(r)).unwrap_or_default();
                         self.w.props.push(m);
                         self.w.prop_refs.push(new_ref);
+                        self.w.prop_meta.push((kind.clone(), "external:0".to_string(), pad));
                         Ok("ok".into())
                     }
                     Ok(Err(e)) => Ok(classify(&e)),
@@ -1162,6 +1200,8 @@ impl Replayer {
         let suite = self.w.suite;
         // C03 insider model: the same member, from the same state and proposals, builds structurally invalid commits
         // (verif_tamper_next_commit hook); they are offered to every receiver before the authentic commit
+        let commit_ad = format!("ad-c{}", self.w.commits.len() + 1).into_bytes();
+        let by_leaf = self.w.parties[p].group.as_ref().map(|g| g.current_member_index()).unwrap_or(0);
         let mut forged: Vec<(String, MlsMessage)> = vec![];
         if (self.tamper > 0 || self.tamper_exhaustive) && want == "ok" && !detached {
             self.w.rec.set(false, false);
@@ -1169,7 +1209,7 @@ impl Replayer {
                 let mut c = self.w.parties[p].group.as_ref().unwrap().clone();
                 c.verif_tamper_next_commit(kind);
                 let kps2 = kps.clone();
-                let r = std::panic::catch_unwind(std::panic::AssertUnwindSafe(|| build_commit(&mut c, &byval, kps2, suite, false, None)));
+                let r = std::panic::catch_unwind(std::panic::AssertUnwindSafe(|| build_commit(&mut c, &byval, kps2, suite, false, commit_ad.clone(), None)));
                 if let Ok(Ok((o, _))) = r {
                     if o.contains_update_path || kind == "stale-confirmation-tag" { forged.push((kind.to_string(), o.commit_message)); }
                 }
@@ -1184,7 +1224,7 @@ impl Replayer {
         let party = self.w.parties.get_mut(p).unwrap();
         let g = party.group.as_mut().unwrap();
         let base_epoch = g.current_epoch();
-        let r = build_commit(g, &byval, kps, suite, detached, new_identity);
+        let r = build_commit(g, &byval, kps, suite, detached, commit_ad.clone(), new_identity);
         let evs = self.w.rec.since(mark);
         match r {
             Err(e) => classify(&e),
@@ -1241,7 +1281,7 @@ impl Replayer {
                     }
                     self.w.bump("commit_recipient_checks");
                 }
-                self.w.commits.push(CommitEntry { by: p.to_string(), welcomes: o.welcome_messages.clone(), msg, tree, base_epoch, forged });
+                self.w.commits.push(CommitEntry { by: p.to_string(), welcomes: o.welcome_messages.clone(), msg, tree, base_epoch, forged, by_leaf, ad: commit_ad });
                 "ok".into()
             }
         }
@@ -1538,10 +1578,10 @@ pub const CUSTOM_PROPOSAL: u16 = 0xF0F1;
 pub const GCE_EXT: mls_rs::extension::ExtensionType = mls_rs::extension::ExtensionType::new(0xF0F0);
 
 /// CommitBuilder calls for the by-value proposals of a model commit
-pub fn build_commit(g: &mut mls_rs::Group<Cfg>, byval: &[Value], kps: Vec<Option<MlsMessage>>, suite: mls_rs::CipherSuite, detached: bool,
+pub fn build_commit(g: &mut mls_rs::Group<Cfg>, byval: &[Value], kps: Vec<Option<MlsMessage>>, suite: mls_rs::CipherSuite, detached: bool, commit_ad: Vec<u8>,
     new_identity: Option<(mls_rs_core::crypto::SignatureSecretKey, mls_rs::identity::SigningIdentity)>)
     -> Result<(mls_rs::group::CommitOutput, Option<mls_rs::group::CommitSecrets>), mls_rs::error::MlsError> {
-    let mut b = g.commit_builder();
+    let mut b = g.commit_builder().authenticated_data(commit_ad);
     if let Some((sk, id)) = new_identity { b = b.set_new_signing_identity(sk, id); }
     for (it, kp) in byval.iter().zip(kps.into_iter()) {
         b = match s(it, "kind") {
